@@ -52,6 +52,7 @@ DEP_CONFIGS = {
     "std": (["derive"], True),
     "phf": (["derive", "phf"], True),
     "nostd": (["derive"], False),
+    "nostdphf": (["derive", "phf"], False),
 }
 
 
